@@ -6,6 +6,7 @@ import (
 	"crypto/sha1"
 	"fmt"
 	"os"
+	"os/exec"
 	"path/filepath"
 	"reflect"
 	"sort"
@@ -86,6 +87,21 @@ func safeDecodeFileSR(data []byte) (f *mp4.File, ok bool) {
 
 func testdataFiles() []string {
 	var files []string
+	// the files git tracks (a test run of the repository writes and removes temporary files in its testdata
+	// directories; those must not become seeds of a check that happens to run at the same time)
+	if out, err := exec.Command("git", "-C", repoRoot(), "ls-files", "-z").Output(); err == nil && len(out) > 0 {
+		for _, rel := range strings.Split(string(out), "\x00") {
+			p := filepath.Join(repoRoot(), rel)
+			if rel == "" || !strings.Contains(p, "/testdata/") || strings.Contains(p, "/fuzz/") {
+				continue
+			}
+			if info, err := os.Stat(p); err == nil && !info.IsDir() && info.Size() > 8 && info.Size() < 4<<20 {
+				files = append(files, p)
+			}
+		}
+		sort.Strings(files)
+		return files
+	}
 	_ = filepath.Walk(repoRoot(), func(p string, info os.FileInfo, err error) error {
 		if err != nil {
 			return nil
